@@ -209,6 +209,11 @@ class C12(Prop):
                 else:
                     ps = [rng.randint(1, npil + 1) for _k in range(rng.randint(0, 2))]
                 ops.append(['remove', tm, ps])
+                if len(ps) == 2 and ps[0] in added and ps[1] not in added and rng.random() < 0.7:
+                    # the half-removed pilot must not get work (role check of the schedulers)
+                    ops.append(['submit', [[nxt, 0, 1, 1], [nxt + 1, 0, 1, 2]]])
+                    subm += [nxt, nxt + 1]
+                    nxt += 2
                 if tm != 'foreign' and len(set(ps)) == len(ps) and all(p in added for p in ps):
                     added = [p for p in added if p not in ps]
             elif r < 0.75:
